@@ -749,6 +749,38 @@ func checkC02(env *engine.Env, ci any) engine.Outcome {
 			}
 		}
 	}
+	// the same settings prepared for the packager by the library user first (nfpm.PrepareForPackager), then packaged:
+	// the same package
+	if err == nil {
+		if cfg, perr := parseYAML(text, nil); perr == nil {
+			if info, gerr := safeGet(&cfg, f); gerr == nil {
+				info = nfpm.WithDefaults(info)
+				if p, e := nfpm.Get(f); e == nil {
+					func() {
+						defer func() {
+							if r := recover(); r != nil {
+								judge("after-prepare", nil, fmt.Errorf("PANIC: %v", r))
+							}
+						}()
+						if perr := nfpm.PrepareForPackager(info, f); perr != nil {
+							judge("after-prepare", nil, perr)
+							return
+						}
+						var buf bytes.Buffer
+						perr := p.Package(info, &buf)
+						out.Transitions++
+						if perr != nil {
+							judge("after-prepare", nil, perr)
+						} else if !bytes.Equal(buf.Bytes(), data) {
+							judge("after-prepare", buf.Bytes(), nil)
+							out.Violations = append(out.Violations, engine.Violation{Sig: "meta:after-prepare:differs:" + f,
+								Detail: fmt.Sprintf("format=%s part=%s: the package built after the library user prepared the settings with nfpm.PrepareForPackager differs from the package built directly (%d vs %d bytes)\n%s", f, c.Part, buf.Len(), len(data), text)})
+						}
+					}()
+				}
+			}
+		}
+	}
 	// the same settings built as a library user would build them in Go: a deep copy sharing nothing with the parsed
 	// configuration, lists and maps without items written the other way round (nil <-> empty)
 	if err == nil {
